@@ -709,6 +709,57 @@ def rule_group_nonempty(rep, F, inv):
         rep.floor("insertions into grouped maps (%s)" % short_ty(T), 3, n_sites)
 
 
+def rule_net_nibble(rep, F):
+    """what the header cannot hold is not stored"""
+    rep.rule("NET-nibble", "every construction of a Shelley address struct (BaseAddress, EnterpriseAddress, RewardAddress, PointerAddress) stores a network id that went through `& 0x0F`: the header byte has four bits for it and Address::to_bytes writes `network & 0xF`, so an unmasked 17 would be written as 1 and decode(encode(a)) != a (two reward accounts differing in the high bits even become a duplicate key)")
+    n = 0
+    for adt, a in sorted(F.adts.items()):
+        short = adt.rsplit("::", 1)[-1]
+        if short not in ("BaseAddress", "EnterpriseAddress", "RewardAddress", "PointerAddress") or a["kind"] != "struct":
+            continue
+        idx = [i for i, f in enumerate(a["variants"][0]["fields"]) if f["name"] == "network"]
+        if not idx:
+            rep.lost("%s has no network field" % short)
+            continue
+        for fid, fn in F.fns.items():
+            if "/tests/" in fn["file"] or F.is_derived(fid):
+                continue
+            defs = None
+            for bb in fn["bbs"]:
+                if bb["c"]:
+                    continue
+                for st in bb["st"]:
+                    if st[1] == "=" and st[3][0] == "agg" and st[3][2] == adt:
+                        if defs is None:
+                            defs = {}
+                            for b2 in fn["bbs"]:
+                                for s2 in b2["st"]:
+                                    if s2[1] == "=":
+                                        defs.setdefault(s2[2], []).append(s2[3])
+                        n += 1
+                        rep.inst("NET-nibble")
+                        op = st[3][4][idx[0]]
+                        ok = False
+                        for _ in range(6):
+                            if op[0] == "k":
+                                ok = str(op[1]).split("_")[0].isdigit() and int(str(op[1]).split("_")[0]) <= 15
+                                break
+                            ds = defs.get(op[1], [])
+                            if len(ds) != 1:
+                                break
+                            rv = ds[0]
+                            if rv[0] == "bin" and rv[1] == "BitAnd" and any(o[0] == "k" and str(o[1]).split("_")[0] == "15" for o in (rv[2], rv[3])):
+                                ok = True
+                                break
+                            if rv[0] == "use":
+                                op = rv[1]
+                                continue
+                            break
+                        if not ok:
+                            rep.violation("NET-nibble", "%s|%s" % (short, F.key(fid)), "%s builds a %s with a network id that is not masked to four bits: %s::new(17, ..).to_bytes() writes network 1, from_bytes reads 1, and the decoded address differs from the original" % (F.key(fid), short, short), {})
+    rep.floor("constructions of Shelley address structs", 4, n)
+
+
 def check(rep, F, tier, replay=None):
     aud = common.load_table("e2_audited.json")
     inv = Inventory(F, thorough=(tier == "thorough"))
@@ -720,6 +771,7 @@ def check(rep, F, tier, replay=None):
     rule_rw_index(rep, F, inv)
     rule_rw_tag(rep, F, inv)
     rule_rw_group(rep, F, inv)
+    rule_net_nibble(rep, F)
     rule_group_nonempty(rep, F, inv)
     rule_inverse_tables(rep, F)
     rule_pair(rep, F, inv, aud)
